@@ -434,7 +434,9 @@ def observe(rt, r):
     pause = {"path": IR.NONE, "key": IR.NONE, "value": IR.NONE}
     if r.pause is not None:
         pause = {"path": r.pause.node_name, "key": r.pause.output_param, "value": IR.canon(r.pause.value),
-                 "response_key": r.pause.response_key}
+                 "response_key": r.pause.response_key,
+                 "values": None if r.pause.values is None else {k: IR.canon(v) for k, v in r.pause.values.items()},
+                 "output_params": None if r.pause.output_params is None else list(r.pause.output_params)}
     return {
         "status": r.status.value,
         "values": {k: IR.canon(v) for k, v in r.values.items()},
